@@ -10,7 +10,9 @@ RULE = ("explicit-state BFS over lifecycle histories of Hmac<D>, Poly1305, legac
         "MAC/digest, a repeated result must be the same bytes or a panic, input after result must panic, reset gives a fresh object with the same key; "
         "tree mode = every letter sequence to the depth bound with up to 2 objects, graph mode = merge on (automaton state, observed result-of-clone) until "
         "the frontier is empty within 4 blocks and 2 resets; legacy digests are compared with the one-shot reference in every state"
-        " Also: HMAC keys of exactly one block; the letter 'result into a buffer one byte short' (must refuse; afterwards a further result must refuse again or be right, reset revives); Digest::input_str for every legacy digest; component shards: C05's Poly1305 limb-steering / corner-state / crafted inputs; tree shards again on the checked-arithmetic build, graph shards of SHA-256 / BLAKE2 objects on the +avx and native builds.")
+        " Also: HMAC keys of exactly one block; the letter 'result into a buffer one byte short' (must refuse; afterwards a further result must refuse again or be right, reset revives); Digest::input_str for every legacy digest; component shards: C05's Poly1305 limb-steering / corner-state / crafted inputs; tree shards again on the checked-arithmetic build, graph shards of SHA-256 / BLAKE2 objects on the +avx and native builds."
+        " Interference: one history per object type with the programs of every other object type (25 bystander programs: hash contexts, one-shots, MACs, legacy digests, stream ciphers, DRG, AEAD, KDFs, Argon2, X25519, Ed25519) woven between its steps, round-robin and whole-program-after-every-step."
+        " Many calls: 66000 one-byte / empty inputs on one object of every type, result, reset, reuse.")
 ASSUMPTIONS = ["reference hashes, RFC 2104 HMAC, big-integer Poly1305 as in C01/C05/C08", "nothing is required of an object after a panic unwound through it (the history of that object ends)",
                "a repeated result may either repeat the bytes or panic; any other value is a violation"]
 
@@ -229,11 +231,51 @@ def _mk(ck):
 def shards(tier):
     from props import c05
     n = len(specs(tier))
-    sh = [("shard_tree", i) for i in range(n)] + [("shard_graph", i) for i in range(n)] + [("shard_input_str", None)]
+    sh = [("shard_tree", i) for i in range(n)] + [("shard_graph", i) for i in range(n)] + [("shard_input_str", None), ("shard_interference", None)] + [("shard_many_calls", k) for k in range(6)]
     # the value a Poly1305 object returns depends on rare accumulator states that no history alphabet reaches: C05's steering,
     # corner and crafted inputs run here as a component (first result of a fresh object)
     sh += [("shard_poly_component", ("shard_limbs", i)) for i in range(c05.NLIMB)] + [("shard_poly_component", ("shard_crafted", None))]
     return sh
+
+
+def shard_interference(_, tier):
+    """one lifecycle per object type (input, result, reset, input, result) with the programs of every other object type
+    (props/common.py: bystanders) woven between its steps, two ways: an object's answers must not depend on which other objects exist
+    or were used in between"""
+    from .common import interference_cases
+    ck = core.Checker(PROPERTY_ID)
+    _mk(ck)
+    own = []
+    for (name, api, new, B, clonable, which, D, key0, mac) in specs(tier):
+        if new.startswith("hmac") and len(key0) != 5:
+            continue            # one key length per HMAC digest is enough here
+        a, b = pat(5, 0, B + 3), pat(5, 700, 2 * B - 1)
+        pre = "m" if api == "m" else "d"
+        ops = ["%snew s0 %s" % (pre, new), "%sinput s0 %s" % (pre, P(5, 0, B + 3)), "%sresult s0" % pre, "%sreset s0" % pre,
+               "%sinput s0 %s" % (pre, P(5, 700, 2 * B - 1)), "%sresult s0" % pre]
+        own.append((ops, ["-", "-", obs_of(mac(key0, a)), "-", "-", obs_of(mac(key0, b))], None))
+    cs = interference_cases(own)
+    ck.run(cs)
+    ck.stats.states += len(cs)
+    return ck.stats
+
+
+def shard_many_calls(part, tier):
+    """very many calls on one object: 66000 one-byte inputs, 66000 empty inputs around real ones; result, reset, a short second message"""
+    ck = core.Checker(PROPERTY_ID)
+    _mk(ck)
+    cases = []
+    n = 66000
+    sp = [x for x in specs(tier) if not (x[2].startswith("hmac") and len(x[7]) != 5)]
+    for (name, api, new, B, clonable, which, D, key0, mac) in sp[part::6]:
+        pre = "m" if api == "m" else "d"
+        one, tail = pat(5, 0, 1), pat(5, 9, 3)
+        cases.append((["%snew s0 %s" % (pre, new), "%sinput_rep s0 %s %d" % (pre, P(5, 0, 1), n), "%sresult s0" % pre, "%sreset s0" % pre,
+                       "%sinput_rep s0 h: %d" % (pre, n), "%sinput s0 %s" % (pre, P(5, 9, 3)), "%sinput_rep s0 h: 300" % pre, "%sresult s0" % pre],
+                      ["-", "-", obs_of(mac(key0, one * n)), "-", "-", "-", "-", obs_of(mac(key0, tail))], None))
+    ck.run(cases)
+    ck.stats.states += len(cases)
+    return ck.stats
 
 
 def shard_poly_component(arg, tier):
